@@ -73,6 +73,7 @@ def installed(chooser, bundle="axis6", rw_maxiter=None, events=None, fault_steps
         arr = np.asarray(arr)
         n = len(arr)
         out = [arr[chooser.choose("ee", n, 0)] for _ in range(int(size) if size is not None else 1)]
+        ev.append(("ee-sample", [float(x) for x in arr], [float(x) for x in out]))
         return np.array(out) if size is not None else out[0]
     patch(np.random, "choice", np_choice)
     # ---- backmap start angles + optimiser answer
